@@ -185,13 +185,16 @@ ob("C13", "K2.attr_target", {"pos": R(0, 3), "nattr": R(1, 4), "has_value": BOOL
 
 
 # K3: --input-eval mode: the target keeps its own name and receives the Literal of the evaluated input value ----------------------------
-def sync_eval(nvals, target_kind, nargs, ndefaults, t, has_self):
+VALSETS = (("alpha", "beta", "gamma"), ("debug", "info", "info", "warn"), (False, True, 0, 1, 2), (1, 1.0, 2), ("a", "a"), (3, 1, 2), ("b", "a"), (True, 1, "1"))
+
+
+def sync_eval(nvals, target_kind, nargs, ndefaults, t, has_self, vset=0):
     from cdd.compound.sync_properties import sync_property
     from cdd.shared.source_transformer import ast_parse
 
     if t >= nargs or ndefaults > nargs:
         return ""
-    vals = ("alpha", "beta", "gamma")[:nvals]
+    vals = VALSETS[vset][:nvals] if vset == 0 else VALSETS[vset]
     in_src = "VAL = %r\n" % (list(vals),)  # a constant: --input-eval is eval by design (explicit opt-in)
     want = "Literal[%s]" % ", ".join(repr(v) for v in vals)
     input_ast = ast_parse(in_src, filename="<in>")
@@ -297,3 +300,8 @@ def sync_dup(kind, has_value, wrap, from_param):
 ob("C13", "K4.duplicate_paths", {"kind": R(0, len(DUP_SRC) - 1), "has_value": BOOL, "wrap": BOOL, "from_param": BOOL}, enum=True, T=300, tpath=60, funcs=FUNCS,
    bound="output modules in which several nodes answer to the dotted path K.a0 (class defined in both branches of an if/else or try/except, nested namesake class, "
          "attribute annotated twice): exactly one statement of the file changes and it becomes the input property")(sync_dup)
+ob("C13", "K3.input_eval.values", {"nvals": R(3, 3), "target_kind": R(0, 1), "nargs": R(2, 2), "ndefaults": R(0, 2), "t": R(0, 1), "has_self": R(0, 1), "vset": R(1, len(VALSETS) - 1)}, enum=True,
+   T=600, tpath=60, funcs=FUNCS + ["cdd.shared.ast_utils.it2literal"],
+   assumes=["shim: eval in cdd.compound.sync_properties runs the real builtin outside the tracer (see K3.input_eval)"],
+   bound="--input-eval with evaluated values %r (repeated members, members that compare equal across types such as 0/False and 1/1.0, unsorted members): the target receives the Literal of "
+         "exactly the evaluated members, in order" % (VALSETS[1:],))(sync_eval)
